@@ -398,3 +398,132 @@ GET_VWAP = FSpec("Market.get_vwap", pre=vwap_pre, post=vwap_post, props=("C08", 
 def t_vwap():
     obl, info = GET_VWAP.verify()
     return {"obligations": obl, "info": [info]}
+
+
+# ----------------------------------------------------------------------------- _execute_orders (C01 fill record, C04 volumes, C08 statistics, C16 guard)
+XLOG_FIELDS = ["market_id", "time", "buy_agent_id", "sell_agent_id", "buy_order_id", "sell_order_id", "price", "volume"]
+
+
+def eo_pre(st, a):
+    m, b, s_, v = a["self"], a["buy_order"], a["sell_order"], a["volume"]
+    bb, sb = books(st, m)
+    return market_inv(st, m) + [("the buy order rests in this market's buy book and the sell order in its sell book", z3.And(st.mem(queue(st, bb).term, b.term), st.mem(queue(st, sb).term, s_.term))),
+                                ("1 <= volume <= both remaining volumes", z3.And(v.term >= 1, v.term <= O(st, "volume")[b.term], v.term <= O(st, "volume")[s_.term]))]
+
+
+def eo_modifies(st, a):
+    m, b, s_ = a["self"], a["buy_order"], a["sell_order"]
+    bb, sb = books(st, m)
+    ls = B.book_lists(st, bb, [exp_key(st, b.term)]) + B.book_lists(st, sb, [exp_key(st, s_.term)])
+    ser = [series_ref(st, m, n) for n in ("_mid_prices", "_market_prices", "_last_executed_prices")]
+    return [("f:Order.volume", [b.term, s_.term]), ("len", ls), ("mem", ls), ("el:Ref", ls), ("heapok", ls), ("nodup", ls),
+            ("el:Real", ser + [series_ref(st, m, "_executed_total_prices")]), ("el:Real?", ser), ("el:Int", [series_ref(st, m, "_executed_volumes")])] + \
+           [("f:ExecutionLog." + f, []) for f in XLOG_FIELDS]
+
+
+def eo_post(st0, st1, a, res):
+    m, b, s_, v, p = a["self"], a["buy_order"], a["sell_order"], a["volume"], a["price"]
+    bb, sb = books(st0, m)
+    qB, qS = queue(st0, bb).term, queue(st0, sb).term
+    t = st0.read(m, "time").term
+    y = z3.Const("y_eo", REF)
+    L = lambda f: st1.F("ExecutionLog", f)[res.term]
+    vb1, vs1 = O(st1, "volume")[b.term], O(st1, "volume")[s_.term]
+    le1 = cell(st1, m, "_last_executed_prices", t)
+    ev0, ev1 = cell(st0, m, "_executed_volumes", t).term, cell(st1, m, "_executed_volumes", t).term
+    et0, et1 = cell(st0, m, "_executed_total_prices", t).term, cell(st1, m, "_executed_total_prices", t).term
+    pr = to_real(p)
+    out = [("C01 the fill record pairs this buy and this sell order of this market at the given price and volume, stamped with the market time",
+            z3.And(L("price") == pr, L("volume") == v.term, L("market_id") == st0.read(m, "market_id").term, L("time") == t,
+                   L("buy_agent_id") == O(st0, "agent_id")[b.term], L("sell_agent_id") == O(st0, "agent_id")[s_.term],
+                   L("buy_order_id") == O(st0, "order_id")[b.term], L("sell_order_id") == O(st0, "order_id")[s_.term], z3.Not(st0.is_alloc(res.term)))),
+           ("C04 both orders' volumes are reduced by the filled volume", z3.And(vb1 == O(st0, "volume")[b.term] - v.term, vs1 == O(st0, "volume")[s_.term] - v.term)),
+           ("C04 an order leaves the book exactly when its volume reaches zero; other orders untouched",
+            z3.And(z3.ForAll([y], st1.mem(qB, y) == z3.And(st0.mem(qB, y), z3.Or(y != b.term, vb1 > 0))), z3.ForAll([y], st1.mem(qS, y) == z3.And(st0.mem(qS, y), z3.Or(y != s_.term, vs1 > 0))))),
+           ("C08 last-trade price of the step is the fill price", z3.And(z3.Not(le1.none), le1.term == pr)),
+           ("C08 executed volume and turnover of the step grow by the fill", z3.And(ev1 == ev0 + v.term, et1 == et0 + z3.ToReal(v.term) * pr)),
+           ("market objects unchanged", z3.And(books(st1, m)[0].term == bb.term, books(st1, m)[1].term == sb.term, st1.read(m, "time").term == t,
+                                               queue(st1, bb).term == qB, queue(st1, sb).term == qS, st1.read(m, "_is_running").term == st0.read(m, "_is_running").term))]
+    out += price_refresh_clauses(st0, st1, m)
+    return out + market_inv(st1, m)
+
+
+def eo_trace(st0, st1, a, res):
+    lg = st0.read(a["self"], "logger")
+    return [event("Write", res, V(("ref", "Logger"), lg.term), guard=z3.Not(lg.none))]
+
+
+EXECUTE_ORDERS = FSpec("Market._execute_orders", axioms=lambda st, a: market_axioms(st, a["self"]), pre=eo_pre, post=eo_post, modifies=eo_modifies, trace=eo_trace, fresh_result=True,
+                       raises={"AssertionError": lambda st, a: z3.Not(st.read(a["self"], "_is_running").term)}, props=("C01", "C04", "C08", "C16", "C10"))
+
+
+@task("Market._execute_orders", props=["C01", "C04", "C08", "C16", "C10", "C03"], functions=["Market._execute_orders", "ExecutionLog.__init__"], replay="market_ops", heavy=True)
+def t_execute_orders():
+    obl, info = EXECUTE_ORDERS.verify(specs=market_callee_specs(), setup=B.setup_book)
+    return {"obligations": obl, "info": [info]}
+
+
+# ----------------------------------------------------------------------------- _cancel_order (C04, C08, C10)
+CLOG_FIELDS = ["order_id", "market_id", "cancel_time", "order_time", "agent_id", "is_buy", "kind", "price", "volume", "ttl"]
+
+
+def co_order(st, a):
+    return st.read(a["cancel"], "order").term
+
+
+def co_pre(st, a):
+    m = a["self"]; o = co_order(st, a)
+    bb, sb = books(st, m)
+    y = z3.Const("y_co", REF)
+    return market_inv(st, m) + [("the order was accepted by this market: no other resting order carries its id",
+                                 z3.ForAll([y], z3.Implies(z3.And(z3.Or(st.mem(queue(st, bb).term, y), st.mem(queue(st, sb).term, y)), y != o), O(st, "order_id")[y] != O(st, "order_id")[o]))),
+                                ("an order rests only in the book of its own side", z3.And(z3.Implies(st.mem(queue(st, bb).term, o), O(st, "is_buy")[o]), z3.Implies(st.mem(queue(st, sb).term, o), z3.Not(O(st, "is_buy")[o]))))]
+
+
+def co_raises(st, a):
+    m = a["self"]; o = co_order(st, a)
+    return z3.Or(st.read(m, "market_id").term != O(st, "market_id")[o], O(st, "order_id", "none")[o], O(st, "placed_at", "none")[o])
+
+
+def co_modifies(st, a):
+    m, c = a["self"], a["cancel"]; o = co_order(st, a)
+    bb, sb = books(st, m)
+    ls = B.book_lists(st, bb, [exp_key(st, o)]) + B.book_lists(st, sb, [exp_key(st, o)])
+    ser = [series_ref(st, m, n) for n in ("_mid_prices", "_market_prices")]
+    return [("f:Order.is_canceled", [o]), ("f:Cancel.placed_at", [c.term]), ("len", ls), ("mem", ls), ("el:Ref", ls), ("heapok", ls), ("nodup", ls),
+            ("el:Real", ser), ("el:Real?", ser)] + [("f:CancelLog." + f, []) for f in CLOG_FIELDS]
+
+
+def co_post(st0, st1, a, res):
+    m, c = a["self"], a["cancel"]; o = co_order(st0, a)
+    bb, sb = books(st0, m)
+    qB, qS = queue(st0, bb).term, queue(st0, sb).term
+    t = st0.read(m, "time").term
+    y = z3.Const("y_cop", REF)
+    L = lambda f, part="val": st1.F("CancelLog", f, part)[res.term]
+    out = [("C04 the order is marked cancelled and rests in no book afterwards; other orders untouched",
+            z3.And(O(st1, "is_canceled")[o], z3.ForAll([y], st1.mem(qB, y) == z3.And(st0.mem(qB, y), y != o)), z3.ForAll([y], st1.mem(qS, y) == z3.And(st0.mem(qS, y), y != o)))),
+           ("C10 the CancelLog reports the order's identity and its remaining volume at the cancel time",
+            z3.And(L("order_id") == O(st0, "order_id")[o], L("market_id") == O(st0, "market_id")[o], L("cancel_time") == t, L("order_time") == O(st0, "placed_at")[o],
+                   L("agent_id") == O(st0, "agent_id")[o], L("is_buy") == O(st0, "is_buy")[o], L("kind") == O(st0, "kind")[o], L("volume") == O(st0, "volume")[o],
+                   L("price", "none") == O(st0, "price", "none")[o], z3.Implies(z3.Not(O(st0, "price", "none")[o]), L("price") == O(st0, "price")[o]),
+                   L("ttl", "none") == O(st0, "ttl", "none")[o], z3.Implies(z3.Not(O(st0, "ttl", "none")[o]), L("ttl") == O(st0, "ttl")[o]), z3.Not(st0.is_alloc(res.term)))),
+           ("market objects unchanged", z3.And(books(st1, m)[0].term == bb.term, books(st1, m)[1].term == sb.term, st1.read(m, "time").term == t,
+                                               queue(st1, bb).term == qB, queue(st1, sb).term == qS))]
+    out += price_refresh_clauses(st0, st1, m)
+    return out + market_inv(st1, m)
+
+
+def co_trace(st0, st1, a, res):
+    lg = st0.read(a["self"], "logger")
+    return [event("Write", res, V(("ref", "Logger"), lg.term), guard=z3.Not(lg.none))]
+
+
+CANCEL_ORDER = FSpec("Market._cancel_order", axioms=lambda st, a: market_axioms(st, a["self"]), pre=co_pre, post=co_post, modifies=co_modifies, trace=co_trace, fresh_result=True,
+                     raises={"ValueError": co_raises}, props=("C04", "C08", "C10"))
+
+
+@task("Market._cancel_order", props=["C04", "C08", "C10"], functions=["Market._cancel_order", "CancelLog.__init__"], replay="market_ops", heavy=True)
+def t_cancel_order():
+    obl, info = CANCEL_ORDER.verify(specs=market_callee_specs(), setup=B.setup_book)
+    return {"obligations": obl, "info": [info]}
